@@ -301,6 +301,22 @@ def gen_fault_cases(g, tier):
                                          "thr": x0 + sgn * r.choice([0.25, 0.5, 1.0])}}
         case["variant"] = kind
         cases.append(case)
+    # targeted: a failing factorisation / back-solve for every step solver, with and without the condition estimate
+    # (whose own back-solves follow the step's solve)
+    for ss in ("Standard", "Extended", "Symmetric", "Asymmetric"):
+        for what in (("fact", r.randint(1, 3)), ("solve", r.randint(1, 2)), ("solve", r.randint(2, 9))):
+            base = C.gen_case(g, "convex_qp", {"iteration_limit": 30, "penalty_update": "DualNorm", "linear_solver_type": "LU",
+                                               "step_solver_type": ss, "report_rcond": what[0] == "solve" and what[1] >= 2,
+                                               "newton_type": ["Simplified", "Full", "ActiveSet"]}, scaling=False)
+            base["faults"] = {"linear": {what[0]: what[1]}}
+            base["variant"] = "linear"
+            cases.append(base)
+    # targeted: each callback failing at the starting point (the Hessian's only evaluation there is the problem statistics)
+    for nm in ("obj", "obj_grad", "cons", "cons_jac", "lag_hess"):
+        base = C.gen_case(g, "nonlinear", {"iteration_limit": 20}, scaling=False)
+        base["faults"] = {"eval": {"name": nm, "k": 1}}
+        base["variant"] = "start"
+        cases.append(base)
     return cases
 
 
@@ -462,7 +478,21 @@ def run_C09(rep, tier, seed):
     r = g.rng
     results = []
     N = 40 if tier == "thorough" else 10
-    for case0 in load_corpus("C09") + [None] * N:
+    # targeted bases: the Hessian cannot be evaluated at the start (its only evaluation there is the problem statistics);
+    # a back-solve of the condition estimator fails (every step solver); both must play out the same whatever is observed
+    targeted = []
+    tb = C.gen_case(g, "nonlinear", {"iteration_limit": 20, "report_rcond": False, "collect_path": False}, scaling=False)
+    tb["faults"] = {"eval": {"name": "lag_hess", "k": 1}}
+    targeted.append(tb)
+    for ss in ("Standard", "Extended", "Symmetric", "Asymmetric"):
+        tb = C.gen_case(g, "convex_qp", {"iteration_limit": 25, "report_rcond": False, "collect_path": False,
+                                         "step_solver_type": ss, "linear_solver_type": "LU"}, scaling=False)
+        tb["faults"] = {"linear": {"estimator_solve": r.randint(1, 6)}}
+        targeted.append(tb)
+    for tb in targeted:
+        tb["obs"] = {"log_level": "ERROR", "display_interval": 1e9, "callbacks": False, "collect_path": False, "report_rcond": False}
+        tb["targeted"] = True
+    for case0 in load_corpus("C09") + targeted + [None] * N:
         base = case0 or C.gen_case(g, None, {"iteration_limit": 60, "report_rcond": False, "collect_path": False})
         base.setdefault("obs", {"log_level": "ERROR", "display_interval": INF, "callbacks": False, "collect_path": False, "report_rcond": False})
         if case0 is None:
